@@ -48,5 +48,6 @@ TraceSpec == TraceInit /\ [][TraceNext]_tvars
 Rep(name, F) == F \/ PrintT(<<"REJ", name, l>>)
 RepC17 == Rep("TC17", C17_Step)
 RepC18 == Rep("TC18", C18_Step)
+RepStrict == Rep("Strict", Strict_Step)
 TraceAccepted == TLCGet("stats").diameter = Len(TraceLog)
 =============================================================================
